@@ -49,6 +49,12 @@ Structs == <<
   [id |-> "recursive-shared", extra |-> ("Chain" :> SObj(Props1("head", SRef("T")), {})), props |-> <<
      P("v", SInt, TRUE, <<JInt(1)>>, ""),
      P("next", SRef("T"), FALSE, <<JObj1("v", JInt(2))>>, "") >>],
+  (* a property whose inline object schema has its own type-level default and members with
+     non-intrinsic defaults (the defaults module must provide their helper functions) *)
+  [id |-> "inline-default", extra |-> << >>, props |-> <<
+     P("v", SInt, TRUE, <<JInt(1)>>, ""),
+     P("in", With(SObj(Props2("flag", With(SBool, "default", JBool(TRUE)), "n", With(SInt, "default", JInt(5))), {}),
+                  "default", JObj1("flag", JBool(FALSE))), FALSE, <<JObj1("n", JInt(1))>>, "") >>],
   [id |-> "all-default", extra |-> << >>, props |-> <<
      P("m", SMap(SInt), FALSE, <<JObj1("k", JInt(1))>>, ""),
      P("f", With(SBool, "default", JBool(TRUE)), FALSE, <<JBool(FALSE)>>, "") >>] >>
